@@ -700,16 +700,44 @@ def _array(enc, ext, kind, big=False):
         mw = z3.Function("mul_w", z3.BitVecSort(32), z3.BitVecSort(32))
         me = z3.Function("mul_esize", z3.BitVecSort(32), z3.BitVecSort(32))
         E.assume(z3.And(mw(bv32(0)) == 0, me(bv32(0)) == 0))
-        # the sender's array fits a message (<= 65535 bits, C08): ahead * (bits per element) does not overflow
-        q_ = mw(cap) / cap
-        E.assume(z3.And(mw(cap) >= 0, mw(cap) <= 65535, z3.BVMulNoOverflow(z3.ZeroExt(16, ahead), q_, True),
-                        z3.ZeroExt(16, ahead) * q_ <= 65535, z3.ZeroExt(16, ahead) * q_ >= 0))
+        # products / quotients of two symbolic operands are uninterpreted ghost functions MUL, DIV (a 32-bit multiplier / divider in
+        # the formulas defeats all three solvers); the three laws used are proved below over the mathematical integers:
+        #   (L1) c >= 1, w >= 0           ==> (c*w) div c = w
+        #   (L2) 0 <= a <= 65535, 0 <= w <= 4096  ==> 0 <= a*w <= 65535*4096   (no 32-bit overflow)
+        #   (L3) c >= 1, a, w >= 0        ==> max(a*w, c*w) = max(a, c) * w
+        B32 = z3.BitVecSort(32)
+        MUL = z3.Function("MUL", B32, B32, B32)
+        DIV = z3.Function("DIV", B32, B32, B32)
+        MUL_OK = z3.Function("MUL_OK", B32, B32, z3.BoolSort())
+        absm = ext and not enc
+        if absm:
+            it.abs_muldiv = {"mul": MUL, "div": DIV, "mul_ok": MUL_OK}
+        a32 = z3.ZeroExt(16, ahead)
+        aw = MUL(a32, w)             # ahead * w
+        ci, wi, ai = z3.Int("c"), z3.Int("w"), z3.Int("a")
+        if not ext or enc:
+            pass
+        else:
+            E.oblige("lemma:L1-exact-division", z3.Implies(z3.And(ci >= 1, wi >= 0), (ci * wi) / ci == wi), kind="lemma")
+            E.oblige("lemma:L2-product-bounded", z3.Implies(z3.And(ai >= 0, ai <= 65535, wi >= 0, wi <= 4096),
+                                                            z3.And(ai * wi >= 0, ai * wi <= 65535 * 4096)), kind="lemma")
+            E.oblige("lemma:L3-max-distributes", z3.Implies(z3.And(ci >= 1, ai >= 0, wi >= 0),
+                                                            z3.If(ai * wi >= ci * wi, ai * wi, ci * wi) == z3.If(ai >= ci, ai, ci) * wi),
+                     kind="lemma")
+        # instances (mw(cap) is the ghost for cap * w):
+        E.assume(z3.And(mw(cap) >= 0, mw(cap) <= 65535 * 4096,
+                        DIV(mw(cap), cap) == w,                                                  # L1
+                        aw >= 0, aw <= 65535 * 4096, MUL_OK(a32, w), MUL(a32, w) == MUL(w, a32), MUL_OK(w, a32),   # L2
+                        z3.If(aw >= mw(cap), aw, mw(cap)) == z3.If(a32 >= cap, aw, mw(cap))))   # L3
         step = lambda k: z3.And(mw(k + 1) == mw(k) + w, me(k + 1) == me(k) + esize, mw(k) >= 0, mw(k) < LIM, me(k) >= 0, me(k) < 64 * LIM)
         flag = {"base": FLAGS["UINT"], "int": FLAGS["INT"], "proc": FLAGS["MESSAGE"], "batch": FLAGS["UINT"], "batch-int": FLAGS["INT"]}[kind]
         if batch:
             nbits = E.fresh("nbits", z3.BitVecSort(32))
             E.assume(z3.Or(nbits == 8, nbits == 16, nbits == 32, nbits == 64))
             E.assume(w == nbits)
+            if absm:
+                # nbits * cap IS cap * w (w = nbits): the ghost mw(cap); standard widths times a 16-bit capacity cannot overflow
+                E.assume(z3.And(MUL(nbits, cap) == mw(cap), MUL(cap, nbits) == mw(cap), MUL_OK(nbits, cap), MUL_OK(cap, nbits)))
         elif kind in ("base", "int") and not big:
             nbits = E.fresh("nbits", z3.BitVecSort(32))
             E.assume(z3.And(nbits >= 1, nbits <= 64, nbits != 8, nbits != 16, nbits != 32, nbits != 64))
@@ -753,7 +781,7 @@ def _array(enc, ext, kind, big=False):
         def inv(I):
             k = tb(I.get_local("k", I32))
             dp = I.load(LV(I.local("data_ptr"), 0, TPtr(TInt(8, False))))
-            cur = (i0 + pre + nbits * cap) if batch else (i0 + pre + mw(k))
+            cur = (i0 + pre + (mw(cap) if absm else nbits * cap)) if batch else (i0 + pre + mw(k))
             return [("range", z3.And(k >= 0, k <= cap)), ("pointer", z3.And(z3.BoolVal(dp.region is data), G.o32(dp.off) == me(k))),
                     ("cursor", ctx_i(I, ctx) == cur)]
         cut = LoopCut(inv=inv, variant=lambda I: cap - tb(I.get_local("k", I32)), havoc_locals=["k", "data_ptr"])
@@ -793,22 +821,20 @@ def _array(enc, ext, kind, big=False):
             raise
         if batch:
             ok = len(base_calls) == 1 and base_calls[0][1].region is data
-            E.oblige("post:batch-copy", z3.And(tb(base_calls[0][0]) == nbits * cap, G.o32(base_calls[0][1].off) == 0,
+            E.oblige("post:batch-copy", z3.And(tb(base_calls[0][0]) == (mw(cap) if absm else nbits * cap), G.o32(base_calls[0][1].off) == 0,
                                                base_calls[0][2] == i0 + pre) if ok else False)
         if prefix:
             E.oblige("post:prefix-call", z3.And(z3.BoolVal(ext and len(prefix) == 1 and prefix[0][0] == ("enc" if enc else "dec")),
                                                 prefix[0][1] == i0))
         else:
             E.oblige("post:prefix-call", z3.BoolVal(not ext))
-        total = (nbits * cap) if batch else mw(cap)
+        total = (nbits * cap) if (batch and not absm) else mw(cap)
         if enc or not ext:
             E.oblige("post:cursor", ctx_i(it, ctx) == i0 + pre + total)
         else:
-            # the skip divides the consumed bits by cap and multiplies by ahead: that clause (cursor = i0 + 16 + max(ahead, cap) * w)
-            # needs 32-bit multiplier / divider reasoning and is covered per program (evolution pairs, same-schema runs); here:
-            # the cursor never moves backwards and is unchanged when the sender's capacity is not larger
-            a32 = z3.ZeroExt(16, ahead)
-            E.oblige("post:cursor", ctx_i(it, ctx) >= i0 + 16 + total)
+            # i0 + 16 + max(ahead, cap) * w  (products as the ghost terms MUL(ahead, w), mw(cap); laws L1-L3)
+            E.oblige("post:cursor", ctx_i(it, ctx) == i0 + 16 + z3.If(a32 >= cap, aw, total))
+            E.oblige("post:cursor-not-backwards", ctx_i(it, ctx) >= i0 + 16 + total)
     return _p
 
 
